@@ -616,7 +616,10 @@ class Tree:
             header["$value_map"] = value_map
 
         if meta:
-            header.update(meta)
+            # User meta data must not shadow the entries that describe *this*
+            # document (`meta` may be the `file_meta` of an earlier `load()`)
+            reserved = ("$generator", "$format_version", "$key_map", "$value_map")
+            header.update({k: v for k, v in meta.items() if k not in reserved})
 
         with self:
             # Materialize node list, so we can lock the snapshot.
